@@ -412,6 +412,14 @@ func (tc *tableCollector) collectFromNode(node ast.Node) {
 				tc.tables[using.Name] = true
 			}
 		}
+	case *ast.MergeStatement:
+		// target and source tables (a sub-query source is reached through the children)
+		if n.TargetTable.Name != "" {
+			tc.tables[n.TargetTable.Name] = true
+		}
+		if n.SourceTable.Name != "" {
+			tc.tables[n.SourceTable.Name] = true
+		}
 	}
 
 	// Recursively collect from children
@@ -471,6 +479,13 @@ func (qtc *qualifiedTableCollector) collectFromNode(node ast.Node) {
 			if using.Name != "" {
 				qtc.addTable(using.Name)
 			}
+		}
+	case *ast.MergeStatement:
+		if n.TargetTable.Name != "" {
+			qtc.addTable(n.TargetTable.Name)
+		}
+		if n.SourceTable.Name != "" {
+			qtc.addTable(n.SourceTable.Name)
 		}
 	}
 
@@ -559,6 +574,18 @@ func (cc *columnCollector) collectFromNode(node ast.Node) {
 	case *ast.UpdateExpression:
 		cc.collectFromExpression(n.Column)
 		cc.collectFromExpression(n.Value)
+	case *ast.SetClause:
+		// MERGE ... UPDATE SET [alias.]column = value: the column is held as a string
+		if _, name := splitQualifiedColumn(n.Column); name != "" {
+			cc.columns[name] = true
+		}
+	case *ast.MergeAction:
+		// MERGE ... INSERT (columns): held as strings
+		for _, col := range n.Columns {
+			if _, name := splitQualifiedColumn(col); name != "" {
+				cc.columns[name] = true
+			}
+		}
 	}
 
 	// Recursively collect from children
@@ -692,6 +719,16 @@ func (qcc *qualifiedColumnCollector) collectFromNode(node ast.Node) {
 	case *ast.UpdateExpression:
 		qcc.collectFromExpression(n.Column)
 		qcc.collectFromExpression(n.Value)
+	case *ast.SetClause:
+		if table, name := splitQualifiedColumn(n.Column); name != "" {
+			qcc.addColumn(table, name)
+		}
+	case *ast.MergeAction:
+		for _, col := range n.Columns {
+			if table, name := splitQualifiedColumn(col); name != "" {
+				qcc.addColumn(table, name)
+			}
+		}
 	}
 
 	// Recursively collect from children
@@ -763,6 +800,15 @@ func (qcc *qualifiedColumnCollector) collectFromExpression(expr ast.Expression) 
 		// Unwrap the aliased expression and collect from inner expression
 		qcc.collectFromExpression(e.Expr)
 	}
+}
+
+// splitQualifiedColumn splits "table.column" (as MERGE keeps SET and INSERT columns)
+// into its qualifier and the column name.
+func splitQualifiedColumn(s string) (table, name string) {
+	if i := strings.LastIndex(s, "."); i >= 0 {
+		return s[:i], s[i+1:]
+	}
+	return "", s
 }
 
 func (qcc *qualifiedColumnCollector) addColumn(table, name string) {
